@@ -23,7 +23,8 @@ def runner(module, prop, nshards=14):
     def check(w, tier, seed):
         t0 = time.time()
         kpath = os.path.join(VERIF, "known_findings.json")
-        known = [e for e in json.load(open(kpath)) if e.get("property") == prop and e.get("status") == "known" and e.get("bounded_case")]
+        # a recorded finding applies to its bounded case whichever property's check runs that case
+        known = [e for e in json.load(open(kpath)) if e.get("status") == "known" and e.get("bounded_case")]
         with ThreadPoolExecutor(nshards) as ex:
             rs = list(ex.map(lambda i: _run(module, tier, seed, i, nshards, w.src, known), range(nshards)))
         out = {"obligations": [], "undecided": [], "errors": [], "bounded": None, "bounded_failures": [], "known_lines": []}
@@ -58,6 +59,8 @@ def runner(module, prop, nshards=14):
                 ent = [e for e in known if e["id"] == kid][0]
                 out["known_lines"].append(f"KNOWN-FINDING: property={prop} {ent['text']} [bounded case {cname}: {kh['count']} inputs, e.g. {json.dumps(kh['example'])[:120]}]")
         for ent in known:
+            if ent.get("bounded_case") not in merged:
+                continue
             if not any(ent["id"] in m["known_hits"] for m in merged.values()):
                 print(f"note: known finding {ent['id']} did not reproduce in bounded module {module}")
         out["bounded"] = {"module": module, "cases": cases,
